@@ -517,7 +517,14 @@ def run_shard(shard, tier, acc):
 
 
 def replay_case(case, acc):
-    if "program" in case:
+    if "noise" in case:
+        idx = [i for i, (prog, _) in enumerate(NOISY) if prog == case["program"]][0]
+        run_noisy_history(acc, idx, tuple(case["history"]))
+    elif "target" in case:
+        st = spaces.stabilizer_states(case["n"])
+        idx = [i for i, g in enumerate(st) if g.strings() == case["target"]][0]
+        run_stabilizer_target(acc, case["n"], idx, tuple(case["history"]))
+    elif "program" in case:
         pi = PROGRAMS.index(case["program"])
         run_history(acc, pi, tuple(case["history"]))
     else:
